@@ -742,7 +742,7 @@ func c01WritePath(c *Ctx, p *Prog) {
 		if ok {
 			for _, e := range ph.Edges {
 				if bo, ok := unspill(e).(*ssa.BinOp); ok && bo.Op == token.ADD {
-					if (unspill(bo.X) == ssa.Value(ph) && unspill(bo.Y) == unspill(n)) || (unspill(bo.Y) == ssa.Value(ph) && unspill(bo.X) == unspill(n)) {
+					if (unspill(bo.X) == ssa.Value(ph) && sameOrSameLen(p, bo.Y, n)) || (unspill(bo.Y) == ssa.Value(ph) && sameOrSameLen(p, bo.X, n)) {
 						okSum = true
 					}
 				} else if k, isK := intConst(e); !isK || k != 0 {
@@ -1435,15 +1435,36 @@ func c01ChopBySlicing(p *Prog, w *ssa.Function, b *ssa.Parameter) (ssa.CallInstr
 	msg := "no makePacket call takes a prefix of a loop-carried remainder of b"
 	for _, call := range p.CallsIn(w, idMakePacket) {
 		a := call.Common().Args
-		s1, ok := unspill(a[3]).(*ssa.Slice)
-		if !ok || s1.Low != nil || s1.High == nil {
+		var rem *ssa.Phi
+		var k ssa.Value
+		var chunk ssa.Value // set when the chunk is "rem, clamped": the advance is then by len(chunk)
+		if s1, ok := unspill(a[3]).(*ssa.Slice); ok && s1.Low == nil && s1.High != nil {
+			rem, _ = unspill(s1.X).(*ssa.Phi)
+			k = unspill(s1.High)
+		} else if ch, ok := unspill(a[3]).(*ssa.Phi); ok && len(ch.Edges) == 2 {
+			// chunk := rem; if len(chunk) > max { chunk = chunk[:max] } — every alternative is rem itself or a prefix of it
+			okAlt := true
+			for _, e := range ch.Edges {
+				e = unspill(e)
+				var base ssa.Value = e
+				if s1, ok := e.(*ssa.Slice); ok && s1.Low == nil && s1.High != nil {
+					base = unspill(s1.X)
+				}
+				ph, ok := base.(*ssa.Phi)
+				if !ok || (rem != nil && ph != rem) {
+					okAlt = false
+					break
+				}
+				rem = ph
+			}
+			if !okAlt {
+				continue
+			}
+			chunk = ch
+		}
+		if rem == nil || len(rem.Edges) != 2 {
 			continue
 		}
-		rem, ok := unspill(s1.X).(*ssa.Phi)
-		if !ok || len(rem.Edges) != 2 {
-			continue
-		}
-		k := unspill(s1.High)
 		initOK, advOK := false, false
 		var backPred *ssa.BasicBlock
 		for i, e := range rem.Edges {
@@ -1452,7 +1473,13 @@ func c01ChopBySlicing(p *Prog, w *ssa.Function, b *ssa.Parameter) (ssa.CallInstr
 				initOK = true
 				continue
 			}
-			if s2, ok := e.(*ssa.Slice); ok && unspill(s2.X) == ssa.Value(rem) && s2.High == nil && s2.Low != nil && unspill(s2.Low) == k && isBackEdge(rem.Block().Preds[i], rem.Block()) {
+			if s2, ok := e.(*ssa.Slice); ok && chunk != nil && k == nil && s2.Low != nil {
+				// the advance is by len(chunk) of exactly this chunk
+				if lc, _ := callOf(unspill(s2.Low)); lc != nil && p.CalleeID(lc.Common()) == "builtin:len" && unspill(lc.Common().Args[0]) == chunk {
+					k = unspill(s2.Low)
+				}
+			}
+			if s2, ok := e.(*ssa.Slice); ok && k != nil && unspill(s2.X) == ssa.Value(rem) && s2.High == nil && s2.Low != nil && unspill(s2.Low) == k && isBackEdge(rem.Block().Preds[i], rem.Block()) {
 				advOK = true
 				backPred = rem.Block().Preds[i]
 			}
@@ -1624,4 +1651,21 @@ func c01ChopByOffset(p *Prog, w *ssa.Function, b *ssa.Parameter) (ssa.CallInstru
 		return call, lenV, ""
 	}
 	return nil, nil, msg
+}
+
+// sameOrSameLen: a and b are one SSA value, or both are len() of one and the same SSA value (go/ssa has
+// no common-subexpression elimination: two len(chunk) in the source are two calls; an SSA slice value
+// does not change, so they are equal).
+func sameOrSameLen(p *Prog, a, b ssa.Value) bool {
+	a, b = unspill(a), unspill(b)
+	if a == b {
+		return true
+	}
+	ca, _ := callOf(a)
+	cb, _ := callOf(b)
+	if ca == nil || cb == nil {
+		return false
+	}
+	return p.CalleeID(ca.Common()) == "builtin:len" && p.CalleeID(cb.Common()) == "builtin:len" &&
+		unspill(ca.Common().Args[0]) == unspill(cb.Common().Args[0])
 }
